@@ -547,6 +547,11 @@ class Weaver:
         sig = rl.text_of(toks, it.head, it.body_open - 1)
         for (a_, b_) in subs:
             sig = sig.replace(a_, b_)
+        # R34: a by-value `mut self` parameter is `self` plus `let mut vx_self = self;` (Verus rejects the `mut` binding mode on
+        # a plain `self`; `mut self: Box<Self>` is accepted and left alone). The body's `self` tokens are renamed.
+        mutself = bool(re.search(r"\(\s*mut\s+self\s*[,)]", sig))
+        if mutself:
+            sig = re.sub(r"\(\s*mut\s+self(\s*[,)])", r"(self\1", sig, count=1)
         sig = self.fix_signature(sig, ret, name)
         for a in attrs:
             self.emit_spec("    " + a, lineno, qname)
@@ -563,6 +568,12 @@ class Weaver:
         for (a_, b_) in subs:
             body = body.replace(a_, b_)
         body = resolve_cfg_in_body(body, self.config)
+        if mutself:
+            btoks = rl.tokenize(body)
+            body = "".join(("vx_self" if (t.kind == rl.IDENT and t.text == "self") else t.text) for t in btoks)
+            k = body.index("{")
+            body = body[:k + 1] + " let mut vx_self = self;" + body[k + 1:]
+            self.rewrite_log.append("%s: R34 (mut self)" % qname)
         body, counts = apply_rewrites(body, declared={r1 for r in rw_expect for r1 in r.split('+')})
         info.rewrites = counts
         declared = set()
